@@ -80,6 +80,12 @@ def _slurm(rng, joblist, code, status, own):
             sq_rows.append("%s %s %s %s" % (jid.rjust(18), "name".rjust(8), "user".rjust(8), word.rjust(2)))
         else:
             sa_rows.append("%s %s %s %s " % (jid.ljust(12), "name".rjust(10), word.rjust(10), "0:0".rjust(8)))
+            # the accounting record lists the job's steps after the job: rows of their own, with their
+            # own states (a job that failed after its srun step completed, ...)
+            for step in rng.sample([".batch", ".extern", ".0", ".1"], rng.choice([0, 0, 1, 2])):
+                sa_rows.append("%s %s %s %s " % ((jid + step).ljust(12), "step".rjust(10),
+                                                 rng.choice(["COMPLETED", "COMPLETED", "FAILED", "CANCELLED"]).rjust(10),
+                                                 "0:0".rjust(8)))
     if rng.random() < 0.5:
         sq_rows.insert(1, "%s %s %s %s" % (noise.rjust(18), "other".rjust(8), "them".rjust(8), " R"))
     fakeenv.SUB.set(squeue=("\n".join(sq_rows) + "\n", "", sqrc), sacct=("\n".join(sa_rows) + "\n", "", sarc))
